@@ -15,7 +15,7 @@ try:
     assert r.returncode == 0, r.stdout + r.stderr
     env = dict(os.environ, AMISC_SRC=str(scratch / 'src'))
     for p in props:
-        r = subprocess.run(['./check', p, tier], cwd='/verif', env=env, capture_output=True, text=True)
+        r = subprocess.run(['./check', p, tier], cwd=os.environ.get('CHECK_ROOT', '/verif'), env=env, capture_output=True, text=True)
         lines = [l for l in r.stdout.splitlines() if l.startswith(('VIOLATION', 'KNOWN', '['))]
         print(p, 'exit', r.returncode); print('\n'.join('   ' + l[:260] for l in lines[:6]))
         if r.returncode == 2:
